@@ -25,7 +25,7 @@ def schedules(job, plan):
     N = job["N"]
     est = int(N / cr.io_ratio(job["cfg"])) + 10
     head = [cr.create_line(job["cfg"]), "limit %d" % N]
-    one = head + ["proc 1 1 1 %d %d" % (N, est + 100), "hash"]
+    one = head + ["proc 1 1 1 %d %d" % (N, est + 100), "hash", "oneshot %d %d" % (N, est + 100)]      # ... and the real soxr_oneshot over the same frames
     push = list(head)
     if rng.chance(.35):
         push.append("stale %d" % rng.choice([1, 37, 300, 100000]))
@@ -85,7 +85,16 @@ def run(ctx):
                 problem = problem or ("correspondence", name, d)
             h = tr.hashes[-1] if tr.hashes else "none(rc=%s)" % tr.rc
             hs[name] = " ".join(t for t in h.split() if not t.startswith("pos="))
-        if len(set(hs.values())) > 1:
+            h1 = [l for l in tr.lines if l.startswith("H1 ")]
+            if h1:          # soxr_oneshot itself: same frame count, same bytes, no error (clip counts are not reported by it)
+                t1 = h1[-1].split()
+                ref = [t for t in h.split() if not t.startswith(("pos=", "clips="))]
+                hs["soxr_oneshot"] = " ".join(["H"] + [t for t in t1[1:] if not t.startswith("idone=")])
+                hs[name + "(no clips)"] = " ".join(ref)
+        if hs.get("soxr_oneshot") is not None and hs["soxr_oneshot"] != hs.get("oneshot(no clips)"):
+            problem = ("differ", hs, None)
+        hs2 = {k: v for k, v in hs.items() if k not in ("soxr_oneshot", "oneshot(no clips)")}
+        if len(set(hs2.values())) > 1:
             problem = ("differ", hs, None)
         if problem:
             kn = [k for k in cr.classify_known(tr0.plan, job["cfg"]) if k in known]
